@@ -363,11 +363,12 @@ func (w *World) leakTrigger(order []string) string {
 func init() {
 	g1Specs["C15"] = func(tier string) *G1Spec {
 		sp := &G1Spec{Prop: "C15", Alpha: []*BatchSpec{
-			{Ops: ops("S:a")}, {Ops: ops("S:a", "D:b")}, {Ops: ops("S:b"), Kids: kid("A", &BatchSpec{Ops: ops("S:a")})}},
+			// the second batch carries a merge operand: a lone one reaches the persister unresolved
+			{Ops: ops("S:a")}, {Ops: ops("M:a", "D:b")}, {Ops: ops("S:b"), Kids: kid("A", &BatchSpec{Ops: ops("S:a")})}},
 			Configs: []Config{
-				{Backing: "store", MinMergePct: 0.01, Concern: 2},
-				{Backing: "store", MinMergePct: 100, Concern: 1, CachePersisted: true},
-				{Backing: "store", MinMergePct: 100, Concern: 0},
+				{Backing: "store", MinMergePct: 0.01, Concern: 2, MergeOp: true},
+				{Backing: "store", MinMergePct: 100, Concern: 1, CachePersisted: true, MergeOp: true},
+				{Backing: "store", MinMergePct: 100, Concern: 0, MergeOp: true},
 			},
 			Steps: []string{"M", "Pb", "Pe", "S+", "CS+", "I+", "IX", "SS+", "H-", "R"},
 			// two persisted rounds leaving at least two live keys in the store, plus one batch still in memory
@@ -379,7 +380,7 @@ func init() {
 		if tier == "thorough" {
 			sp.MaxB, sp.MaxD, sp.MaxK, sp.MaxH = 3, 9, 1, 3
 			sp.Devs = []string{"m1", "p1", "m2", "p2"}
-			sp.Configs = append(sp.Configs, Config{Backing: "store", MinMergePct: 0.01, Concern: 2, CachePersisted: true, IdleMS: 10, SleepBudget: 2})
+			sp.Configs = append(sp.Configs, Config{Backing: "store", MinMergePct: 0.01, Concern: 2, CachePersisted: true, IdleMS: 10, SleepBudget: 2, MergeOp: true})
 		}
 		sp.Check = func(w *World, path []string) []Violation {
 			return append(withProp(w.viols, "C15"), w.handlesOracle("C15")...)
